@@ -28,6 +28,20 @@ func (eng *Engine) lemmaUnits(theories []string) []*UnitResult {
 	return out
 }
 
+// lemmaUnitsOf: lemmas declared in a package's contract files are proved whenever a unit of that package is checked.
+func (eng *Engine) lemmaUnitsOf(pkgPath string) []*UnitResult {
+	cs := eng.contractsOf(pkgPath)
+	var out []*UnitResult
+	for i, name := range cs.LemmaSeq {
+		r := eng.proveLemma(cs, cs.Lemmas[name], cs.LemmaSeq[:i])
+		if p, ok := eng.pkgs[pkgPath]; ok {
+			r.Pkg = p.Types.Name() + "/lemma"
+		}
+		out = append(out, r)
+	}
+	return out
+}
+
 func (eng *Engine) proveLemma(cs *ContractSet, lm *Lemma, earlier []string) *UnitResult {
 	u := &Unit{eng: eng, fset: eng.fset, pkgName: "theory", key: lm.Name, c: newCtx(false, nil), cs: cs, nameCount: map[string]int{},
 		paramSyms: map[string]string{}, unfolded: map[string]bool{}, exprCount: map[string]int{}, calledContracts: map[string]bool{},
@@ -48,6 +62,11 @@ func (eng *Engine) proveLemma(cs *ContractSet, lm *Lemma, earlier []string) *Uni
 	allowed := map[string]bool{}
 	for _, e := range earlier {
 		allowed[e] = true
+	}
+	if cs != eng.theories {
+		for _, n := range eng.theories.LemmaSeq {
+			allowed[n] = true
+		}
 	}
 	for _, r := range lm.Requires {
 		st.assume(env.evalBool(r.Expr))
